@@ -107,6 +107,25 @@ def norm_case_lit(cid, n):
     return (f"({cid}%nat, Norm (mkN {qt(n['X'])} {qv(n['w'])} {facs} {n['rank']}%nat {tape} {qv(n['w_impl'])} {facs2}))")
 
 
+def tksweep_case_lit(cid, c):
+    states = "[" + "; ".join("[" + "; ".join(qm(f) for f in st) + "]" for st in c["states"]) + "]"
+    return f"({cid}%nat, TkSweep (mkTs {qt(c['X'])} {C.nat_list(c['rs'])} {states} {C.q(float(c['rel']))}))"
+
+
+def modes_case_lit(cid, c):
+    return f"({cid}%nat, Modes (mkMd {c['n']}%nat {C.nat_list(c['fixed'])} {C.boolc(c['is_nn'])} {C.nat_list(c['observed'])}))"
+
+
+def first_sweep_modes(cap):
+    """modes of the MTTKRP calls of the first sweep, in order (up to the first repetition)"""
+    seen = []
+    for k in cap.kr:
+        if k["mode"] in seen:
+            break
+        seen.append(k["mode"])
+    return seen
+
+
 def spec_case_lit(cid, c):
     Y, U = c["Y"], c["U"]
     return (f"({cid}%nat, SpecCert (mkSp {Y.shape[0]}%nat {Y.shape[1]}%nat {U.shape[1]}%nat {qm(Y)} {qm(c['Q'])} {qv(c['lam'])} {qm(U)}))")
@@ -317,9 +336,9 @@ def hals_objective(G, B, V, l1, l2):
 
 
 # ----------------------------------------------------------------------------- the runs
-BUDGET = {"quick": dict(cp=84, hals=36, ls=32, norm=12, reg=12, tk=10, cmtf=8, tkreg=8, tr=10, spec=8, proc=8, rep=12),
-          "thorough": dict(cp=480, hals=220, ls=200, norm=80, reg=50, tk=60, cmtf=50, tkreg=40, tr=60, spec=60, proc=60, rep=80)}
-KINDS = ("cp", "hals", "ls", "norm", "reg", "tk", "cmtf", "tkreg", "tr", "spec", "proc", "rep")
+BUDGET = {"quick": dict(cp=84, hals=36, ls=32, norm=12, reg=12, tk=10, cmtf=8, tkreg=8, tr=10, spec=8, proc=8, rep=12, tks=4, modes=40),
+          "thorough": dict(cp=480, hals=220, ls=200, norm=80, reg=50, tk=60, cmtf=50, tkreg=40, tr=60, spec=60, proc=60, rep=80, tks=30, modes=200)}
+KINDS = ("cp", "hals", "ls", "norm", "reg", "tk", "cmtf", "tkreg", "tr", "spec", "proc", "rep", "tks", "modes")
 
 
 class Ctx:
@@ -703,12 +722,52 @@ def run_parafac(ctx, n_runs):
             history_check(ctx, entry, inputs, objs, what="objective recomputed from callback iterates")
         add_cp_blocks(ctx, entry, inputs, cap, lam, max_blocks=4 if ctx.tier == "quick" else 6)
         reported_is_objective(ctx, entry, inputs, X, iterates, errs)
+        ctx.add_case("modes", modes_case_lit, dict(n=len(shape), fixed=list(kw.get("fixed_modes", [])), is_nn=False, observed=first_sweep_modes(cap)),
+                     dict(entry=entry, inputs=dict(inputs, kind="updated modes")))
         if "normalize" in variant and len(iterates) >= 2:
             # the state the implementation hands to cp_normalize after a sweep: previous weights, freshly updated factors
             wts, fs = iterates[rng.randrange(1, len(iterates))]
             add_norm_case(ctx, entry, inputs, X, wts, fs, zero_col=(it % 5 == 1))
         if it < 3:
             chk.sample(dict(algorithm="parafac", variant=variant, shape=list(shape), rank=rank, errors=[float(e) for e in errs][:6], blocks=len(cap.blocks)))
+
+
+def run_fixed_modes(ctx, n_runs):
+    """option parsing of parafac's fixed_modes: unsorted lists, the last mode 'fixed' (ignored with a warning), all modes fixed (early exit:
+    the initialisation is returned, no sweep); the modes updated by the first sweep must be the model's cp_modes_list"""
+    import tensorly as tl
+    from tensorly.decomposition import _cp
+    chk, rng = ctx.chk, ctx.rng
+    entry = "tensorly.decomposition.parafac"
+    for it in range(n_runs):
+        shape = [(3, 2, 2), (2, 3, 2, 2), (3, 3)][it % 3]
+        nd = len(shape)
+        fixed = [[nd - 1], list(range(nd))[::-1], [nd - 1, 0], list(range(nd)), [1, 0] if nd > 2 else [0], rng.sample(range(nd), rng.randrange(1, nd + 1))][it % 6]
+        r = np_rng(rng)
+        X = lowrank(r, shape, 2, 0.1)
+        w, facs = rand_cp_init(r, shape, 2)
+        kw = dict(n_iter_max=3, tol=0, init=tl.cp_tensor.CPTensor((w, [f.copy() for f in facs])), fixed_modes=list(fixed))
+        inputs = dict(shape=list(shape), rank=2, variant="fixed_modes=" + str(fixed), tensor=X, init=[w] + facs, options=dict(n_iter_max=3, tol=0, fixed_modes=list(fixed)))
+        attempt(ctx, entry)
+        with Capture() as cap:
+            out = C.call_impl(_cp.parafac, X.copy(), 2, **kw)
+        chk.hist("algorithm", "parafac:fixed_modes parsing")
+        if out[0] != "ok":
+            raised(ctx, entry, out[1]); continue
+        ctx.judged[entry] = ctx.judged.get(entry, 0) + 1
+        observed = first_sweep_modes(cap)
+        chk.count(key=(entry, "fixed_modes", tuple(shape), tuple(fixed)), nontrivial=True)
+        # a fixed factor must come back unchanged (so the blocks really are the only updates)
+        try:
+            res_f = [np.asarray(f, dtype=float) for f in out[1][1]]
+        except Exception:
+            res_f = None
+        if res_f is not None:
+            for k in range(nd):
+                if k in fixed and k not in observed and not np.array_equal(res_f[k], facs[k]):
+                    chk.finding(entry, dict(inputs, mode=k), f"factor of the fixed mode {k} was changed although no block updates it", "C07_cp_modes_list")
+        ctx.add_case("modes", modes_case_lit, dict(n=nd, fixed=list(fixed), is_nn=False, observed=observed),
+                     dict(entry=entry, inputs=dict(inputs, kind="updated modes (fixed_modes parsing)")))
 
 
 def run_nn_hals(ctx, n_runs):
@@ -771,6 +830,8 @@ def run_nn_hals(ctx, n_runs):
                               what="objective recomputed from prefix runs")
                 if sparsity is None:
                     reported_matches(ctx, entry, inputs, errs, [math.sqrt(max(o, 0.0) / n2) for o in objs])
+        ctx.add_case("modes", modes_case_lit, dict(n=nd, fixed=list(kw.get("fixed_modes", [])), is_nn=True, observed=first_sweep_modes(cap)),
+                     dict(entry=entry, inputs=dict(inputs, kind="updated modes")))
         for hb in cap.halsruns:
             hals_float_check(ctx, entry + " (inner hals_nnls)", inputs, hb)
         if sparsity is None:
@@ -909,6 +970,21 @@ def run_tucker(ctx, n_runs):
                         and Ysvd.shape == (shape[modes[j]], int(np.prod(rs_full)) // rs_full[modes[j]])):
                     ctx.add_case("tk", tk_case_lit, dict(X=X, rs=rs_full, before=full(fb), after=full(fa), core=core.ravel(), k=modes[j], Y=Ysvd),
                                  dict(entry=entry, inputs=dict(inputs, sweep=t, block=j, kind="hooi block")))
+        # a WHOLE sweep, block by block, with the error reported for it (multi-step exact check, Corr.C07.tksweep_agree)
+        errs_t = out[1][1]
+        if off in (0, m) and X.size <= 48 and len(errs_t) == 8:
+            tt = rng.randrange(1, 8)
+            ans = lambda t_, q: cap.hooi_svds[off + t_ * m + q]["U"]
+            states = []
+            for j_ in range(-1, m):
+                Us = [np.eye(d) for d in shape]
+                for q in range(m):
+                    Us[modes[q]] = ans(tt, q) if q <= j_ else ans(tt - 1, q)
+                states.append(Us)
+            rs_f = [int(U.shape[1]) for U in states[0]]
+            if (int(np.prod(rs_f)) <= 32 and all(U.shape == (shape[a], rs_f[a]) for st in states for a, U in enumerate(st))):
+                ctx.add_case("tks", tksweep_case_lit, dict(X=X, rs=rs_f, states=states, rel=float(errs_t[tt])),
+                             dict(entry=entry, inputs=dict(inputs, sweep=tt, kind="whole hooi sweep + reported error")))
         # objective recomputed from prefix runs: || X - core x_modes factors || / ||X||
         objs, ok = [], True
         for nit in range(1, 6):
@@ -1324,7 +1400,7 @@ def static_tie(chk):
 
 
 def PLAN(quick):
-    return [(run_corpus, 0), (run_parafac, 80 if quick else 400), (run_nn_hals, 18 if quick else 120), (run_hals_nnls, 36 if quick else 300),
+    return [(run_corpus, 0), (run_parafac, 80 if quick else 400), (run_fixed_modes, 12 if quick else 36), (run_nn_hals, 18 if quick else 120), (run_hals_nnls, 36 if quick else 300),
             (run_tucker, 18 if quick else 120), (run_parafac2, 24 if quick else 72), (run_p2_linestep, 30 if quick else 120), (run_tr_als, 12 if quick else 80),
             (run_cmtf, 12 if quick else 80), (run_regressors, 12 if quick else 60)]
 
@@ -1347,7 +1423,7 @@ def run(chk):
     chk.checker_cmds.append("coqc (vm_compute, Qops) on generated build/cases/C07/*.v: Corr.C07.failing")
     chk.cov["traces_validated_against_impl"] = n_eval
     chk.cov["exhaustive"] = False
-    chk.cov["block_cases"] = dict(cp_blocks=ctx.n_cp, hals_chains=ctx.n_hals, ls_blocks=ctx.n_ls, normalisations=ctx.n_norm, regressor_blocks=ctx.n_reg, hooi_blocks=ctx.n_kind.get("tk", 0), cmtf_coupled_blocks=ctx.n_kind.get("cmtf", 0), tucker_regressor_blocks=ctx.n_kind.get("tkreg", 0), tensor_ring_blocks=ctx.n_kind.get("tr", 0), hooi_spectral_certificates=ctx.n_kind.get("spec", 0), parafac2_procrustes_certificates=ctx.n_kind.get("proc", 0), reported_error_cases=ctx.n_kind.get("rep", 0), float_block_predicates=ctx.py_blocks,
+    chk.cov["block_cases"] = dict(cp_blocks=ctx.n_cp, hals_chains=ctx.n_hals, ls_blocks=ctx.n_ls, normalisations=ctx.n_norm, regressor_blocks=ctx.n_reg, hooi_blocks=ctx.n_kind.get("tk", 0), cmtf_coupled_blocks=ctx.n_kind.get("cmtf", 0), tucker_regressor_blocks=ctx.n_kind.get("tkreg", 0), tensor_ring_blocks=ctx.n_kind.get("tr", 0), hooi_spectral_certificates=ctx.n_kind.get("spec", 0), parafac2_procrustes_certificates=ctx.n_kind.get("proc", 0), reported_error_cases=ctx.n_kind.get("rep", 0), hooi_whole_sweeps=ctx.n_kind.get("tks", 0), updated_modes_cases=ctx.n_kind.get("modes", 0), float_block_predicates=ctx.py_blocks,
                                   candidates={k: len(v) for k, v in ctx.cands.items()})
     chk.cov["skipped_ill_conditioned"] = ctx.skipped_illcond
     chk.cov["rule"] = ("seeded well-conditioned problems (low rank + noise; dense / nearly collinear ones for the line search), orders 2-4, rank 1-3: every algorithm "
@@ -1371,7 +1447,7 @@ def run(chk):
         chk.disagreement(f"corr:C07 {kind} block (Model/Descent.v vs {descr['entry']})", dict(kind=kind, **descr))
         # turn the disagreement into a failing input: the run whose captured block disagrees with the model
         inp = dict(descr["inputs"]); inp["block_kind"] = kind
-        for k in ("G", "B", "A", "Y", "X", "M", "xnew", "w", "facs", "iterates", "mode", "lam", "prev", "l1", "l2", "eps", "tape", "w_impl", "facs_impl", "Xs", "ys", "reg", "rs", "before", "after", "core", "V", "Us", "newcore", "newfac", "cores", "dim", "new", "design", "Q", "lam", "U", "P", "sg", "rel", "k", "rank"):
+        for k in ("G", "B", "A", "Y", "X", "M", "xnew", "w", "facs", "iterates", "mode", "lam", "prev", "l1", "l2", "eps", "tape", "w_impl", "facs_impl", "Xs", "ys", "reg", "rs", "before", "after", "core", "V", "Us", "newcore", "newfac", "cores", "dim", "new", "design", "Q", "lam", "U", "P", "sg", "rel", "k", "rank", "states", "fixed", "observed"):
             if k in payload and k not in inp:
                 inp["block_" + k] = payload[k]
         chk.finding(descr["entry"], inp, f"{kind} block: the implementation's block state disagrees with the exact model block "
